@@ -55,6 +55,40 @@ def _mc_ffibuf(v):
     return res
 
 
+def _selftest_c26(trace):
+    """Binding self-test: corrupt recorded fields of real observations; Trace_Ffi.tla must flag
+    each of them (a check that cannot fail proves nothing)."""
+    recs = lib.read_ndjson(trace, 1500)
+    out, planted = [], []
+    for e in recs:
+        if e["ev"] == "call" and not e["mustFail"] and not e["crashed"] and e["lib"] == "ok":
+            if len(planted) == 0 and 2 <= e["cap"] <= e["fullLen"]:
+                e = dict(e, ret=e["ret"] + 1)
+                planted.append("return value is not Min(fullLen, cap-1)")
+            elif len(planted) == 1 and e["cap"] > 3:
+                e = dict(e, canariesIntact=False)
+                planted.append("wrote outside the caller's buffer")
+            elif len(planted) == 2 and e["cap"] > 3:
+                e = dict(e, nulAt=e["nulAt"] - 1)
+                planted.append("no NUL at buf[ret]")
+            elif len(planted) == 3 and e["cap"] > 3:
+                e = dict(e, prefixOk=False)
+                planted.append("text before the NUL is not a prefix of the full response")
+        out.append(e)
+    if len(planted) < 4:
+        raise lib.ToolError("self-test: not enough ok calls to corrupt")
+    path = lib.outpath("C26", "ffi-selftest.ndjson")
+    with open(path, "w") as f:
+        for e in out:
+            f.write(json.dumps(e) + "\n")
+    msgs, _, _ = lib.tlc_trace("Trace_Ffi.tla", path, timeout=1200, metatag="Trace_Ffi-selftest")
+    whys = [m.get("why") for m in msgs if m.get("kind") == "FAIL"]
+    missing = [w for w in planted if w not in whys]
+    if missing:
+        raise lib.ToolError(f"self-test: corrupted records were not flagged: {missing}")
+    return planted
+
+
 def run_c26(v):
     quick = v.tier == "quick"
     binary = lib.build_harness()
@@ -74,6 +108,7 @@ def run_c26(v):
     stats = next((m for m in msgs if m.get("kind") == "STATS"), {})
     if not stats or stats.get("truncated", 0) == 0 or stats.get("complete", 0) == 0 or stats.get("rejected", 0) == 0:
         raise lib.ToolError(f"vacuous ffi trace: {stats}")
+    planted = _selftest_c26(trace)
     samples = [e for e in lib.read_ndjson(trace, 4000) if e["ev"] == "call" and e["cap"] in (0, 1, 7, e["fullLen"], e["fullLen"] + 1)][:8]
     v.coverage.update({
         "states": mc["distinct"] + s["events"], "transitions": mc["states"] + s["events"],
@@ -85,6 +120,7 @@ def run_c26(v):
         "calls_rejected_argument": stats.get("rejected", 0), "calls_no_room": stats.get("noroom", 0),
         "callee_crashes_observed": s["crashes"], "forked_children": s["forks"],
         "buffer_placements": args[args.index("--modes") + 1],
+        "selftest_corruptions_flagged": planted,
         "samples": samples,
         "exhaustive": False,
     })
@@ -172,6 +208,41 @@ def _sim_histories(v, num, depth, path):
     return lib.write_cases(keep, "CASE", path)
 
 
+def _selftest_c25(trace):
+    """Binding self-test: corrupt one recorded field per kind; Trace_Frontends.tla must flag each."""
+    recs = lib.read_ndjson(trace, 400)
+    planted = []
+    for e in recs:
+        if e["ev"] != "step":
+            continue
+        k = e["op"]["kind"]
+        if k == "search" and "ids" not in planted and len(e["obs"]["cli"]["res"]["ids"]) >= 2 \
+                and e["obs"]["cli"]["res"]["ids"] == e["obs"]["lib"]["res"]["ids"]:
+            e["obs"]["cli"]["res"]["ids"].reverse()
+            planted.append("ids")
+        elif k == "search" and "scores" not in planted and e["obs"]["http"]["res"]["scores"] \
+                and e["obs"]["http"]["res"] == e["obs"]["lib"]["res"]:
+            e["obs"]["http"]["res"]["scores"][0] += 7
+            planted.append("scores")
+        elif k == "commit" and "contents" not in planted and e["obs"]["ffi"]["contents"] and "ids" in planted:
+            e["obs"]["ffi"]["contents"][0]["ver"] += 1
+            planted.append("contents")
+        if len(planted) == 3:
+            break
+    if len(planted) < 3:
+        raise lib.ToolError(f"self-test: could only plant {planted}")
+    path = lib.outpath("C25", "frontends-selftest.ndjson")
+    with open(path, "w") as f:
+        for e in recs:
+            f.write(json.dumps(e) + "\n")
+    msgs, _, _ = lib.tlc_trace("Trace_Frontends.tla", path, timeout=1200, metatag="Trace_Frontends-selftest")
+    fields = [m.get("field") for m in msgs if m.get("kind") == "FAIL"]
+    missing = [w for w in planted if w not in fields]
+    if missing:
+        raise lib.ToolError(f"self-test: corrupted records were not flagged: {missing} (flagged {fields})")
+    return planted
+
+
 def run_c25(v):
     quick = v.tier == "quick"
     binary = lib.build_harness()
@@ -190,6 +261,7 @@ def run_c25(v):
     stats = next((m for m in msgs if m.get("kind") == "STATS"), {})
     if not stats or stats.get("searches_compared", 0) == 0 or stats.get("contents_checked", 0) == 0:
         raise lib.ToolError(f"vacuous frontends trace: {stats}")
+    planted = _selftest_c25(trace)
     samples = []
     for e in lib.read_ndjson(trace, 200):
         if e["ev"] == "step" and e["op"]["kind"] in ("commit", "search") and len(samples) < 4:
@@ -206,6 +278,7 @@ def run_c25(v):
         "search_results_compared_with_reference": stats.get("searches_compared", 0),
         "contents_observations_checked": stats.get("contents_checked", 0),
         "front_ends": ["lib", "libffi", "cli", "http", "ffi"],
+        "selftest_corruptions_flagged": planted,
         "samples": samples,
         "exhaustive": False,
     })
